@@ -224,11 +224,16 @@ CPP_FEATURES = C_FEATURES + ['using', 'template', 'operators', 'containers', 'la
                              'casts', 'using', 'template', 'operators']
 
 
-def gen(rng, lang='cpp', winapi=False):
+def gen(rng, lang='cpp', winapi=False, nostd=False):
+    """nostd: no #include and no std:: (self-contained text, e.g. for clang's JSON AST)"""
     g = _G(rng, lang)
     feats = list(C_FEATURES if lang == 'c' else CPP_FEATURES)
+    if nostd:
+        feats = [f for f in feats if f not in ('using', 'containers')]
     lines = ['/* generated by featgen */']
-    if lang != 'c':
+    if nostd:
+        pass
+    elif lang != 'c':
         lines += ['#include <vector>', '#include <string>', '#include <map>', '#include <cstddef>']
     else:
         lines += ['#include <stddef.h>']
